@@ -347,7 +347,14 @@ func wsPair(lib string, mode vlib.ChunkMode, seed int64) (jsonrpc2.Codec, jsonrp
 	}
 	sc := <-serverCodec
 	srv.RegisterOnShutdown(func() {})
-	go func() { time.Sleep(60 * time.Second); select { case <-hold: default: close(hold) } }()
+	go func() {
+		time.Sleep(60 * time.Second)
+		select {
+		case <-hold:
+		default:
+			close(hold)
+		}
+	}()
 	return cc, sc, srv
 }
 
